@@ -5,6 +5,7 @@ import (
 	"fmt"
 	"io"
 	"sort"
+	"strings"
 	"time"
 
 	"github.com/pingcap/kvproto/pkg/kvrpcpb"
@@ -29,16 +30,34 @@ type simConn struct {
 	idx     int // index inside the pool
 	uid     string
 	closed  bool // Close was observed
-	down    bool // the "TCP connection" is currently broken: creations fail while failLeft > 0
-	failLeft int
+	// after a break the connection stays unusable for a while: until the instant
+	// notReadyUntil waitConnReady fails, and the next failN creations of a stream
+	// fail, counted separately for every forwarding target, so that the outcome
+	// does not depend on the order in which the library asks for streams of
+	// several targets (it ranges over a Go map there). The second one is a count
+	// and not a time window because the library retries a failed creation at once,
+	// without back-off (see CHECK.md, observations), and creation costs no
+	// simulated time here: a window would never end.
+	notReadyUntil time.Duration
+	failEpoch     int
+	failN         int
+	pos           map[string]*posFail
 	breaks  int
 	streams []*simStream
-	creates int
+	seen    []seenID // request ids the server side of this connection has received
+}
+
+type posFail struct{ epoch, left int }
+
+type seenID struct {
+	id  uint64
+	tag string
 }
 
 type recvItem struct {
 	resp *tikvpb.BatchCommandsResponse
 	err  error
+	tags []string // payload tags of the responses in resp
 }
 
 type outResp struct {
@@ -63,7 +82,7 @@ type simStream struct {
 	flushing bool
 	sends   int
 	flushes int
-	recvWaiting bool
+	diedAt  time.Duration
 }
 
 var _ tikvpb.Tikv_BatchCommandsClient = (*simStream)(nil)
@@ -81,11 +100,18 @@ func (s *simStream) RecvMsg(m any) error { return fmt.Errorf("batchsim: RecvMsg 
 // simulator has queued a response batch or an error.
 func (s *simStream) Recv() (*tikvpb.BatchCommandsResponse, error) {
 	w := s.w
+	gid := curGID()
 	for {
 		w.mu.Lock()
+		w.actors[gid] = "recv:" + s.conn.uid + "/" + fwdName(s.fwd)
 		if len(s.inbox) > 0 {
 			it := s.inbox[0]
 			s.inbox = s.inbox[1:]
+			for _, tag := range it.tags {
+				if c := w.callByTag[tag]; c != nil {
+					c.answered = true // the library now holds the response
+				}
+			}
 			w.mu.Unlock()
 			if it.err != nil {
 				w.sim.Count("recv.error")
@@ -118,6 +144,7 @@ func (s *simStream) killLocked(err error, keepQueued bool) {
 		return
 	}
 	s.dead = err
+	s.diedAt = s.w.sim.Now()
 	if !keepQueued {
 		s.inbox = nil
 	}
@@ -160,8 +187,14 @@ func (s *simStream) Send(req *tikvpb.BatchCommandsRequest) error {
 		items = append(items, it)
 	}
 
+	gid := curGID()
 	w.mu.Lock()
+	if a := w.actors[gid]; !strings.HasPrefix(a, "send:") {
+		// the first Send of this send loop: from now on it is named after its pool
+		w.actors[gid] = fmt.Sprintf("send:%s/g%d", s.conn.target, s.conn.gen)
+	}
 	s.sends++
+	w.totalSends++
 	if s.dead != nil {
 		w.mu.Unlock()
 		w.sim.Count("send.on-dead-stream")
@@ -191,6 +224,9 @@ func (s *simStream) Send(req *tikvpb.BatchCommandsRequest) error {
 		if c := w.callByTag[it.tag]; c != nil {
 			c.sentOn = append(c.sentOn, s.uid)
 			c.sentID = it.id
+		}
+		if fate != "break" {
+			s.conn.seen = append(s.conn.seen, seenID{it.id, it.tag})
 		}
 	}
 	w.tracef("send %s fate=%s %v", s.uid, fate, tags)
@@ -308,15 +344,19 @@ func (w *world) scheduleResponseLocked(s *simStream, id uint64, tag, kind string
 	if h3 := w.fates.Intn("ghost:"+tag, 1000); h3 < n.Ghost {
 		g := outResp{id: 1<<40 + uint64(w.fates.Intn("ghostid:"+tag, 1<<20)), tag: "ghost-of-" + tag, val: "ghost", kind: kind}
 		if w.fates.Intn("ghostkind:"+tag, 2) == 0 {
-			// an id that was handed out before and is long gone (or never existed)
-			g.id = uint64(1 + w.fates.Intn("ghostold:"+tag, int(id)+3))
-			if g.id == id {
-				g.id = id + 1000003
+			// an "outdated" id: one this connection carried earlier and whose call
+			// has already returned. The library hands ids out in increasing order,
+			// so such an id can never be pending again. (An id that is still
+			// pending, or not yet seen, is never used: answering it with a foreign
+			// payload would be a server that lies, which no property covers.)
+			var old []uint64
+			for _, e := range s.conn.seen {
+				if c := w.callByTag[e.tag]; c != nil && e.id != id && c.done() {
+					old = append(old, e.id)
+				}
 			}
-			// an old id could still be pending on THIS stream: answering it with a
-			// foreign payload would be a server that lies, which no property covers
-			if w.pendingIDLocked(s, g.id) {
-				g.id = 1<<41 + g.id
+			if len(old) > 0 {
+				g.id = old[w.fates.Intn("ghostold:"+tag, len(old))]
 			}
 		}
 		dg := time.Duration(10+w.fates.Intn("ghostd:"+tag, 4000)) * time.Microsecond
@@ -325,16 +365,6 @@ func (w *world) scheduleResponseLocked(s *simStream, id uint64, tag, kind string
 			w.respond(s, g)
 		})
 	}
-}
-
-// pendingIDLocked reports whether id belongs to a call that has not returned yet.
-func (w *world) pendingIDLocked(s *simStream, id uint64) bool {
-	for _, c := range w.calls {
-		if c.sentID == id && !c.done() {
-			return true
-		}
-	}
-	return false
 }
 
 // respond runs on the simulator goroutine at the response's due time.
@@ -376,14 +406,12 @@ func (w *world) flush(s *simStream) {
 		})
 	}
 	resp := &tikvpb.BatchCommandsResponse{}
-	var ids []string
+	var ids, tags []string
 	for _, o := range out {
 		resp.RequestIds = append(resp.RequestIds, o.id)
 		resp.Responses = append(resp.Responses, makeResponse(o))
 		ids = append(ids, fmt.Sprintf("%d=%s", o.id, o.tag))
-		if c := w.callByTag[o.tag]; c != nil {
-			c.answered = true
-		}
+		tags = append(tags, o.tag)
 	}
 	if w.fates.Intn("health:"+key, 1000) < w.sc.Net.Health {
 		w.feedbackSeq++
@@ -397,7 +425,7 @@ func (w *world) flush(s *simStream) {
 		w.sim.Count("resp.multi-response-batch")
 	}
 	w.tracef("deliver %s %v", s.uid, ids)
-	s.inbox = append(s.inbox, recvItem{resp: resp})
+	s.inbox = append(s.inbox, recvItem{resp: resp, tags: tags})
 	s.wake()
 }
 
@@ -421,16 +449,35 @@ func (w *world) breakStream(s *simStream, wide, keepQueued bool, why string) {
 	s.conn.noteBreakLocked(w, why)
 }
 
-// noteBreakLocked decides how many of the following re-creations on this
-// connection fail.
+// failStep is the unit of the "not ready" window after a break (about one
+// back-off step of the re-creation loop).
+const failStep = 250 * time.Millisecond
+
+// noteBreakLocked decides for how long re-creations on this connection fail.
 func (c *simConn) noteBreakLocked(w *world, why string) {
 	c.breaks++
 	if w.sc.Net.FailCreate > 0 {
 		n := w.fates.Intn(fmt.Sprintf("failcreate:%s#%d", c.uid, c.breaks), w.sc.Net.FailCreate+1)
-		if n > c.failLeft {
-			c.failLeft = n
+		c.downFor(w, n, fmt.Sprintf("%s#%d", c.uid, c.breaks))
+	}
+}
+
+func (c *simConn) downFor(w *world, n int, key string) {
+	if n <= 0 {
+		return
+	}
+	now := w.sim.Now()
+	// some of the n failures as "connection not ready" for a while, the rest as
+	// refused stream creations
+	k := w.fates.Intn("downsplit:"+key, n+1)
+	if k > 0 {
+		d := time.Duration(k)*failStep - time.Duration(w.fates.Intn("downd:"+key, int(failStep/2)))
+		if t := now + d; t > c.notReadyUntil {
+			c.notReadyUntil = t
 		}
 	}
+	c.failEpoch++
+	c.failN = n - k
 }
 
 // ---- hooks installed into the library ---------------------------------------
@@ -467,6 +514,9 @@ func (w *world) dial(target string, opts ...grpc.DialOption) (*grpc.ClientConn, 
 			w.mu.Lock()
 			c.closed = true
 			w.anyConnClosed = true
+			if now := w.sim.Now(); w.firstCloseAt == 0 || now < w.firstCloseAt {
+				w.firstCloseAt = now
+			}
 			for _, s := range c.streams {
 				s.killLocked(status.Error(codes.Canceled, "grpc: the client connection is closing"), false)
 			}
@@ -488,9 +538,7 @@ func (w *world) waitReady(cc *grpc.ClientConn, timeout time.Duration) error {
 	if c.closed || cc.GetState() == connectivity.Shutdown {
 		return context.DeadlineExceeded
 	}
-	if c.failLeft > 0 && !w.healthy && w.fates.Intn(fmt.Sprintf("notready:%s#%d", c.uid, c.creates), 2) == 0 {
-		c.failLeft--
-		c.creates++
+	if w.sim.Now() < c.notReadyUntil && !w.healthy {
 		w.sim.Count("fault.conn-not-ready")
 		w.tracef("waitConnReady %s: not ready", c.uid)
 		// what the real function returns when the dial timeout elapses; the time
@@ -512,15 +560,33 @@ func (w *world) newStream(cc *grpc.ClientConn, fwd, connIdx string) (tikvpb.Tikv
 		w.sim.Count("stream.create-on-closed-conn")
 		return nil, status.Error(codes.Canceled, "grpc: the client connection is closing")
 	}
-	c.creates++
-	if c.failLeft > 0 && !w.healthy {
-		c.failLeft--
+	if c.pos == nil {
+		c.pos = map[string]*posFail{}
+	}
+	pf := c.pos[fwd]
+	if pf == nil {
+		pf = &posFail{}
+		c.pos[fwd] = pf
+	}
+	if pf.epoch != c.failEpoch {
+		pf.epoch, pf.left = c.failEpoch, c.failN
+	}
+	if pf.left > 0 && !w.healthy {
+		pf.left--
 		w.sim.Count("fault.stream-create-fails")
 		w.tracef("newStream %s fwd=%q: fails", c.uid, fwd)
 		return nil, streamBroken("cannot create stream")
 	}
 	s := &simStream{w: w, conn: c, fwd: fwd, connIdx: connIdx, notify: make(chan struct{}, 1)}
-	s.uid = fmt.Sprintf("%s/%s#%d", c.uid, fwdName(fwd), len(c.streams))
+	// the name must not depend on the order in which streams of different
+	// forwarding targets are created (the library ranges over a Go map there)
+	nth := 0
+	for _, t := range c.streams {
+		if t.fwd == fwd {
+			nth++
+		}
+	}
+	s.uid = fmt.Sprintf("%s/%s#%d", c.uid, fwdName(fwd), nth)
 	c.streams = append(c.streams, s)
 	w.sim.Count("stream.created")
 	if len(c.streams) > 1 {
